@@ -92,11 +92,17 @@ def float_rank_divergent(level: str, n: int) -> bool:
 # --------------------------------------------------------------------------------------
 # comparison of (x, r)
 # --------------------------------------------------------------------------------------
-def merge_near(x, r, tol):
+def merge_near(x, r, tol, scales=None):
+    """merge adjacent blocks whose values agree to `tol` relative to their own magnitude or - when `scales` (per index: the
+    largest |y| that went into the block, see local_scales) is given - relative to that: a block value that is 0 in exact
+    arithmetic comes out of a root finder as 7e-17 times the data's magnitude"""
     out = [r[0]]
     for j in range(1, len(r) - 1):
         a, b = float(x[r[j] - 1]), float(x[r[j]])
-        if abs(a - b) > tol * max(abs(a), abs(b)):
+        m = max(abs(a), abs(b))
+        if scales is not None:
+            m = max(m, float(scales[r[j] - 1]), float(scales[r[j]]))
+        if abs(a - b) > tol * m:
             out.append(r[j])
     out.append(r[-1])
     return out
@@ -159,8 +165,8 @@ def compare_xr(io, mo, exact: bool, tol=1e-9, with_r=True, scale=None, ylocal=No
             return f"x[{i}] = {a!r} but the model gives {float(b)!r}" + ("" if loc is None else f" (tolerance {tol:g} x {loc[i]:g}, the largest |y| in its block)")
     if not with_r:
         return None
-    ri = merge_near(io["x"], io["r"], 1e-7)
-    rm = merge_near([float(v) for v in xm], mo["r"], 1e-7)
+    ri = merge_near(io["x"], io["r"], 1e-7, loc)
+    rm = merge_near([float(v) for v in xm], mo["r"], 1e-7, loc)
     if ri != rm:
         return f"block vector differs beyond float ties: {io['r']} vs model {mo['r']}"
     return None
